@@ -1,7 +1,8 @@
 """C09 binder: evaluation metrics of the four tasks.  Encoder only -- the verdict is T_Metrics's.
 
 One case = one abstract evaluation problem (spec/Metrics.tla): task, vocabulary size C, score unit u,
-items [t, y, s], clips (lists of item indices), style.  The binder builds real clips / annotations /
+items [t, y, s], clips (lists of item indices), extras (clips present in one input only, with their
+position), style.  The binder builds real clips / annotations /
 predictions realising it, calls the task function with the clips in case order (fwd) and reversed (rev),
 saves the fwd Evaluation with soundevent.io.save and loads it again (aoef), and records for every level
 the (term label, term name, value) lists and the scores.  Doubles travel as limb numbers.
@@ -29,7 +30,7 @@ ENUM = {
 POOL = 12
 CHUNK = 600
 RULE = ("every (task, vocabulary size, multiset of items = truth x score vector on the quarter lattice, clip shape, "
-        "realisation style) of the TLA+ enumeration plus random problems with up to 4 items / 4 classes on the 1/4 and 1/8 "
+        "pattern of clips present in one input only, realisation style) of the TLA+ enumeration plus random problems with up to 4 items / 4 classes on the 1/4 and 1/8 "
         "lattices; each run in two clip orders and through an AOEF save/load; non-trivial = the task returned and the "
         "evaluation carries at least one metric whose allowed set is not the whole of {0, 1/n, .., 1} "
         "(counted here as: at least two items, or a vocabulary of three or more tags, or a multilabel item)")
@@ -98,7 +99,37 @@ def _build(case):
         anns.append(data.ClipAnnotation(clip=clip, sound_events=sas, tags=[T[0]] if extra else []))
         preds.append(data.ClipPrediction(clip=clip, sound_events=sps,
                                          tags=[data.PredictedTag(tag=T[-1], score=0.5)] if extra else []))
+    preds, anns = _with_extras(case, T, preds, anns)
     return T, preds, anns, clip_of, item_of
+
+
+def _with_extras(case, T, preds, anns):
+    """Interleave the clips that are in one input only (case["extras"]: after `pos` of the evaluated clips, on `side`).
+
+    Their uuids are not registered: a clip evaluation for one of them is counted as `extra` by _encode."""
+    extras = case.get("extras", [])
+    if not extras:
+        return preds, anns
+    P, A = [], []
+    for q in range(len(case["clips"]) + 1):
+        for x, e in enumerate(extras):
+            if e["pos"] != q:
+                continue
+            clip = data.Clip(recording=_REC, start_time=500.0 + 20.0 * x, end_time=516.0 + 20.0 * x)
+            box = data.BoundingBox(coordinates=[501.0 + 20.0 * x, 1000.0, 503.0 + 20.0 * x, 1500.0])
+            se = data.SoundEvent(recording=_REC, geometry=box)
+            sound = case["task"] in ("sec", "sed")
+            if e["side"] == "pred":
+                tags = [data.PredictedTag(tag=T[0], score=1.0)]
+                P.append(data.ClipPrediction(clip=clip, tags=[] if sound else tags, sound_events=(
+                    [data.SoundEventPrediction(sound_event=se, score=1.0, tags=tags)] if sound else [])))
+            else:
+                A.append(data.ClipAnnotation(clip=clip, tags=[] if sound else [T[0]], sound_events=(
+                    [data.SoundEventAnnotation(sound_event=se, tags=[T[0]])] if sound else [])))
+        if q < len(case["clips"]):
+            P.append(preds[q])
+            A.append(anns[q])
+    return P, A
 
 
 def _metrics(ms):
@@ -225,7 +256,9 @@ def random_cases(rng, tier):
             if rng.random() < 0.15:
                 clips.insert(0, [])
         made += 1
-        yield {"task": task, "C": C, "u": u, "items": items, "clips": clips, "style": rng.randrange(2)}
+        extras = [{"pos": rng.randrange(len(clips) + 1), "side": rng.choice(["pred", "pred", "ann"])}
+                  for _ in range(rng.choice([0, 0, 1, 1, 2, 3]))]
+        yield {"task": task, "C": C, "u": u, "items": items, "clips": clips, "extras": extras, "style": rng.randrange(2)}
 
 
 def nontrivial(o):
